@@ -37,6 +37,8 @@ def all_ranks_used(pats, R):
             return False
     return True
 
+THOROUGH_SEEDS = 8
+
 
 def cases(tier, seed):
     rng = random.Random(seed + 2)
@@ -68,6 +70,14 @@ def cases(tier, seed):
                     cs.append({'scen': 'tt_round', 's': dict(base, rmax=rm)})
             if d >= 2 and rep == 2:
                 cs.append({'scen': 'tt_round', 's': dict(base, rmax=[1] + [1 + (k % 2) for k in range(d - 1)] + [1])})
+    # arbitrary sign-free entries, rank-1 profiles (over-parameterised only through scale): every factorization input is a single row/column
+    for N, M in [([3], None), ([2, 3], None), ([2, 1, 2], None), ([2, 2], [2, 1])] + ([([2, 2, 2, 2], None), ([1, 2, 2], [2, 1, 2])] if th else []):
+        base = {'N': N, 'R': [1] * (len(N) + 1), 'patterns': [], 'general': True}
+        if M:
+            base['M'] = M
+        cs.append({'scen': 'tt_round', 's': dict(base)})
+        cs.append({'scen': 'tt_round', 's': dict(base, eps='zero')})
+        cs.append({'scen': 'tt_round', 's': dict(base, rmax=1)})
     # rank-deficient / over-parameterised: a rank index that is never used (zero column) and the zero tensor
     cs.append({'scen': 'tt_round', 's': {'N': [2, 2], 'R': [1, 3, 1], 'patterns': [[[0, 0, 0], [0, 1, 1]], [[0, 0, 0], [1, 1, 0]]]}})
     cs.append({'scen': 'tt_round', 's': {'N': [2, 2, 2], 'R': [1, 2, 2, 1], 'patterns': [[[0, 0, 0], [0, 1, 0]], [[0, 0, 0], [0, 1, 1]], [[0, 0, 0], [1, 1, 0]]]}})
